@@ -25,7 +25,7 @@ ASSUMPTIONS = [
     "monotonicity law evaluated on trees without negated rows (a negated row is meant to be dropped under cant_delete)",
     "juniper 'inactive:' rows are not generated",
 ]
-FLOORS = {"quick": {"filters_compared": 3000, "strict_raises_agreed": 300, "strict_passes_agreed": 100, "monotone_checked": 1000, "idempotent_checked": 3000, "explicit_negated_rule_cases": 400, "production_merges_checked": 1500, "diff_texts_filtered": 600, "ignore_rule_filters": 300, "slash_regex_filters": 300, "rows_under_an_inherited_global_rule_two_or_more_levels_down": 300, "acl_lines_with_tab_before_params": 2000},
+FLOORS = {"quick": {"filters_compared": 3000, "strict_raises_agreed": 300, "strict_passes_agreed": 100, "monotone_checked": 1000, "idempotent_checked": 3000, "explicit_negated_rule_cases": 400, "production_merges_checked": 1500, "diff_texts_filtered": 600, "ignore_rule_filters": 300, "slash_regex_filters": 300, "rows_under_an_inherited_global_rule_two_or_more_levels_down": 300, "acl_lines_with_tab_before_params": 2000, "acl_comment_lines_inside_blocks": 500, "inactive_row_filters": 600},
           "thorough": {"filters_compared": 100000, "strict_raises_agreed": 10000, "strict_passes_agreed": 3000, "monotone_checked": 30000, "idempotent_checked": 100000, "explicit_negated_rule_cases": 12000, "production_merges_checked": 50000, "diff_texts_filtered": 20000, "ignore_rule_filters": 10000, "slash_regex_filters": 5000}}
 VENDORS = ["huawei", "cisco", "pc", "routeros", "juniper", "arista"]
 KNOWN_WINNER = "C06/children-rules-lost-when-global-or-negated-match-outranks-local"
@@ -139,6 +139,16 @@ def add_deep_global(rng, level, tree, prefix):
     return placed[0]
 
 
+def commented(text, rng):
+    """`# ...` comment lines inside the ACL text, at the indentation of the rule they precede"""
+    out = []
+    for ln in text.split("\n"):
+        if ln.strip() and rng.random() < 0.15:
+            out.append(" " * (len(ln) - len(ln.lstrip(" "))) + rng.choice(["# note", "#", "# interface * %cant_delete=1"]))
+        out.append(ln)
+    return "\n".join(out)
+
+
 def make_case(seed, negpair=False, deep=False):
     rng = random.Random(seed)
     vname = VENDORS[rng.randrange(len(VENDORS))]
@@ -216,7 +226,8 @@ def check_case(seed, acc, negpair=False, deep=False):
     texts = {k: A.render(v) for k, v in acls.items()}
     if deep:
         trng = random.Random(seed ^ 0x7AB)
-        texts = {k: tabbed(v, trng) for k, v in texts.items()}
+        texts = {k: commented(tabbed(v, trng), trng) for k, v in texts.items()}
+        acc.count("acl_comment_lines_inside_blocks", sum(1 for v in texts.values() for ln in v.split("\n") if ln.startswith(" ") and ln.strip().startswith("#")))
         acc.count("acl_lines_with_tab_before_params", sum(1 for v in texts.values() for ln in v.split("\n") if "\t%" in ln))
     texts["A+B"] = texts["A"] + "\n" + texts["B"]
     w["acl_A"], w["acl_B"] = texts["A"], texts["B"]
@@ -470,7 +481,51 @@ def check_slash_regex_case(seed, acc):
         acc.violation("C06/filter-differs", "apply_acl does not return exactly the covered lines", dict(w, which="A", expected=exp, got=got))
 
 
+def check_inactive_case(seed, acc):
+    """one ACL text compiled for the three vendors that negate with `delete` (in a shuffled order, in one process) and applied to a tree holding
+    Junos `inactive: <statement>` rows: for juniper such a row belongs to the rule of <statement>; for nokia and ribbon it is a row like any other"""
+    from annet.annlib.rbparser.acl import compile_acl_text
+    from annet.annlib.patching import apply_acl
+    rng = random.Random(seed)
+    heads = ["interfaces", "protocols", "system", "policy-options"]
+    covered = rng.sample(heads, rng.randint(1, 3))
+    text = "".join("%s\n    * ~\n" % h if rng.random() < 0.5 else "%s\n    ~ %%global\n" % h for h in covered)
+    tree = []
+    for h in heads:
+        ch = [[("inactive: " if rng.random() < 0.4 else "") + "%s%d x" % (rng.choice("abc"), i), []] for i in range(rng.randint(1, 3))]
+        tree.append([("inactive: " if rng.random() < 0.4 else "") + h, ch])
+
+    def expect(vname):
+        out = []
+        for row, ch in tree:
+            base = row[len("inactive: "):] if row.startswith("inactive: ") else row
+            if vname == "juniper":
+                ok = base in covered
+            else:
+                ok = row in covered
+            if ok:
+                out.append([row, ch])
+        return out
+    order = ["juniper", "nokia", "ribbon"]
+    rng.shuffle(order)
+    w = {"seed": seed, "inactive": True, "acl_A": text, "tree": tree, "vendor_order": order}
+    for vname in order:
+        try:
+            got = plain(apply_acl(unplain(tree), compile_acl_text(text, vname), fatal_acl=False))
+        except Exception as e:
+            acc.violation("C06/exception/%s" % type(e).__name__, "compiling / applying an ACL to a tree with inactive rows raised", dict(w, vendor=vname, error=repr(e)[:300]))
+            return
+        acc.count("inactive_row_filters")
+        acc.case(["inactive", vname, text, tree], nontrivial=True)
+        exp = expect(vname)
+        if got != exp:
+            acc.violation("C06/filter-differs", "apply_acl does not return exactly the covered lines", dict(w, vendor=vname, which="A", expected=exp, got=got))
+            return
+
+
 def run_shard(spec, acc):
+    if spec["mode"] == "replay" and spec["witness"].get("inactive"):
+        return check_inactive_case(spec["witness"]["seed"], acc)
     if spec["mode"] == "replay" and spec["witness"].get("slash_regex"):
         return check_slash_regex_case(spec["witness"]["seed"], acc)
     if spec["mode"] == "replay" and spec["witness"].get("ignore_case"):
@@ -494,3 +549,5 @@ def run_shard(spec, acc):
             check_ignore_case(rng.randrange(1 << 48), acc)
         if j % 10 == 3:
             check_slash_regex_case(rng.randrange(1 << 48), acc)
+        if j % 10 == 8:
+            check_inactive_case(rng.randrange(1 << 48), acc)
